@@ -352,6 +352,7 @@ def snapshot_arg_sources(text: str) -> List[Optional[str]]:
 def snapshot_values(text: str, extra=None) -> list:
     """Evaluate every snapshot argument of `text` in {names -> (symbolic) values}; MISSING for empty calls."""
     ns = eval_ns()
+    ns.setdefault("snapshot", lambda *a: a[0] if a else MISSING)  # nested snapshot(...) calls inside an argument
     if extra:
         ns.update(extra)
     out = []
